@@ -385,6 +385,23 @@ func c15RedeemBytesS(amount *big.Int, s *big.Int, nonce uint64) []byte {
 	return c15LockBytes(big.NewInt(0), c15Contract, append(sel, a...), nonce, s)
 }
 
+// a redeem transaction whose RAW bytes contain the redeem selector BEFORE the call data: the gas price
+// is selector||28 bytes of `chosen`, the call data asks for `inData`.  ParseRedeem on the raw bytes
+// reads `chosen`; a parse of the decoded call data would read `inData` (seeded slip C15_7 / C02_5)
+func c15CraftedRedeemBytes(chosen, inData int64, tail int64) []byte {
+	sel, _ := hex.DecodeString(c15RedeemSelector())
+	w := make([]byte, 32)
+	big.NewInt(chosen).FillBytes(w)
+	gp := new(big.Int).SetBytes(append(append([]byte{}, sel...), w[4:]...))
+	a := make([]byte, 32)
+	big.NewInt(inData).FillBytes(a)
+	tx := ethtypes.NewTx(&ethtypes.LegacyTx{Nonce: uint64(tail), GasPrice: gp, Gas: 100000, To: &c15Contract, Value: big.NewInt(0), Data: append(sel, a...),
+		V: big.NewInt(27), R: big.NewInt(12345), S: c15S(tail)})
+	bz, err := rlp.EncodeToBytes(tx)
+	must(err)
+	return bz
+}
+
 // byte strings that are NOT identical to raw but carry the same external transaction: trailing
 // bytes, a leading zero byte, a non-minimal RLP length prefix, one more RLP string wrapper
 func c15Variants(raw []byte) [][]byte {
@@ -606,6 +623,9 @@ func (w *c15World) run(r *rand.Rand) {
 	newRedeemTx := func() int {
 		tail++
 		v := big.NewInt(amounts[r.Intn(len(amounts))])
+		if r.Intn(5) == 0 { // selector ahead of the call data: the raw parse and the call-data parse differ
+			return w.addTx(c15CraftedRedeemBytes(amounts[r.Intn(len(amounts))], 1, tail))
+		}
 		if r.Intn(10) == 0 {
 			v = huge
 		}
@@ -998,6 +1018,9 @@ func c15RunScript(sc c15Script) c15Case {
 		case "redeemtx":
 			v, _ := new(big.Int).SetString(s.Amount, 10)
 			w.addTx(c15RedeemBytes(v, s.Tail))
+		case "craftredeemtx":
+			v, _ := new(big.Int).SetString(s.Amount, 10)
+			w.addTx(c15CraftedRedeemBytes(v.Int64(), 1, s.Tail))
 		case "varianttx": // a non-identical byte string carrying the external transaction of tx s.Tx (index s.Index into c15Variants)
 			base := w.txs[s.Tx-1]
 			vs := c15Variants(base.Bytes)
